@@ -390,13 +390,23 @@ func C14TwoUpdaters() {
 	mark := len(st.sentMessages())
 	x, y := sym.I32("first-value"), sym.I32("second-value")
 	done := make(chan bool, 2)
+	// the two writes come from the service itself, or from two clients whose requests are handled by two
+	// goroutines (a client of the service next to an in-process proxy of the object, which has a mailbox
+	// of its own)
+	clientWrites := sym.Bool("writes-come-from-clients")
+	write := func(v int32) error {
+		if clientWrites {
+			return front.impl.SetProperty(value.String("delay"), value.Int(v))
+		}
+		return o.front.UpdateProperty(zzPropID, "i", zzLE32(uint32(v)))
+	}
 	sym.Schedules(true)
 	go func() {
-		sym.Assert(o.front.UpdateProperty(zzPropID, "i", zzLE32(uint32(x))) == nil, "update-ok")
+		sym.Assert(write(x) == nil, "update-ok")
 		done <- true
 	}()
 	go func() {
-		sym.Assert(o.front.UpdateProperty(zzPropID, "i", zzLE32(uint32(y))) == nil, "update-ok")
+		sym.Assert(write(y) == nil, "update-ok")
 		done <- true
 	}()
 	<-done
@@ -426,19 +436,47 @@ func C14InvalidUpdateRacing() {
 	ch := NewChannel(net.NewEndPoint(st), DefaultCap())
 	msg := zzFrame(net.Call, 9, 1, 0, 10, zzRegisterPayload(1, zzPropID, 70))
 	sym.Assert(h.RegisterEvent(&msg, ch) == nil, "register-ok")
+	// the register holds an earlier accepted value
+	z := sym.I32("earlier-value")
+	sym.Assume(z >= 0)
+	sym.Assert(o.front.UpdateProperty(zzPropID, "i", zzLE32(uint32(z))) == nil, "invalid-racing/earlier-write-ok")
 	mark := len(st.sentMessages())
 	x, y := sym.I32("valid-value"), sym.I32("invalid-value")
 	sym.Assume(x >= 0)
 	sym.Assume(y < 0)
 	var errValid, errInvalid error
-	done := make(chan bool, 2)
+	var readDuring []byte
+	withReader := sym.Bool("a-client-reads-meanwhile")
+	n := 2
+	if withReader {
+		n = 3
+	}
+	done := make(chan bool, 3)
 	sym.Schedules(true)
 	go func() { errValid = o.front.UpdateProperty(zzPropID, "i", zzLE32(uint32(x))); done <- true }()
 	go func() { errInvalid = o.front.UpdateProperty(zzPropID, "i", zzLE32(uint32(y))); done <- true }()
-	<-done
-	<-done
+	if withReader {
+		go func() {
+			if v, err := front.impl.Property(value.String("delay")); err == nil && v != nil {
+				readDuring = zzValueBytes(v)
+			}
+			done <- true
+		}()
+	}
+	for i := 0; i < n; i++ {
+		<-done
+	}
 	sym.Schedules(false)
 	sym.Quiesce()
+	if withReader {
+		// a read that overlaps the writes sees the earlier value or the accepted one, never the refused one
+		sym.Assert(sym.Or(sym.EqBytes(readDuring, zzValueBytes(value.Int(z))), sym.EqBytes(readDuring, zzValueBytes(value.Int(x)))), "invalid-racing/read-saw-a-value-nobody-accepted")
+	}
+	final, err := front.impl.Property(value.String("delay"))
+	sym.Assert(err == nil && final != nil, "invalid-racing/final-read-ok")
+	if err == nil && final != nil {
+		sym.Assert(sym.EqBytes(zzValueBytes(final), zzValueBytes(value.Int(x))), "invalid-racing/register-does-not-hold-the-accepted-write")
+	}
 	sym.Assert(errValid == nil, "invalid-racing/valid-write-refused")
 	sym.Assert(errInvalid != nil, "invalid-racing/refused-value-accepted")
 	evs := st.sentMessages()[mark:]
